@@ -148,7 +148,8 @@ groups overflow x buffer x history x subscriber-0 request, borrowed x buffer x o
 backpressure x buffer x max_subscribers (overflow off), focus x start x max_publishers x max_subscribers occurs (validity: without \
 overflow buffer >= history, as the service builder demands). Service variant: local for all; thorough adds an ipc pass over a pairwise \
 array of the same knobs. Plus three directed configurations with THREE subscribers, no safe overflow, one publisher and the strategies \
-discard-and-fail / retry-then-discard / discard (one send meets several full subscribers and one with room).";
+discard-and-fail / retry-then-discard / discard (one send meets several full subscribers and one with room), and two directed \
+configurations with ONE publisher slot that is re-filled up to 3 times while the subscriber keeps samples of the vanished publishers.";
 
 fn valid(a: &[Option<usize>]) -> bool {
     // the service builder rejects history > buffer without safe overflow
@@ -256,6 +257,32 @@ fn three_subscribers(max_creates: usize) -> Vec<Cfg> {
     v
 }
 
+/// directed additions: ONE publisher slot that is filled again and again while the subscriber keeps
+/// undelivered samples of the publishers that are gone (more expired connections than max_publishers)
+fn publisher_churn(max_creates: usize) -> Vec<Cfg> {
+    let mut v = Vec::new();
+    for (overflow, buf, payload) in [(false, 3, Payload::U64), (true, 2, Payload::Slice)] {
+        v.push(Cfg {
+            variant: Variant::Local,
+            payload,
+            maxp: 1,
+            maxs: 1,
+            buf,
+            hist: 0,
+            bor: 2,
+            loans: 1,
+            overflow,
+            strategy: Strategy::Discard,
+            sub_qos: [SubQos::Default, SubQos::Default],
+            focus: Focus::ChurnPub,
+            start: Start::PubFirst,
+            populate: Populate::All,
+            max_creates,
+        });
+    }
+    v
+}
+
 pub fn configs(tier: Tier, prop: &str) -> Vec<(Cfg, Plan)> {
     let mut out = Vec::new();
     match tier {
@@ -269,6 +296,9 @@ pub fn configs(tier: Tier, prop: &str) -> Vec<(Cfg, Plan)> {
             }
             for c in three_subscribers(3) {
                 out.push((c, Plan { tree_depth: 5, finish_prefixes: false, frontier: Some((100, 8)), split: 2 }));
+            }
+            for c in publisher_churn(3) {
+                out.push((c, Plan { tree_depth: 7, finish_prefixes: false, frontier: Some((400, 11)), split: 3 }));
             }
         }
         Tier::Thorough => {
